@@ -75,7 +75,27 @@ func lockEvents(tr []TraceStep) map[uint32][]string {
 	return out
 }
 
-func runScenario(name string, cfgSeed uint64, ch func(int, []int) int, grace time.Duration) *scenOut {
+// runScenario runs one scenario; a panic outside the scheduled threads (the monitors replay the
+// stream into a replica, restore snapshots, read rows back) is a verdict on that run, not a crash
+// of the check: none of the scenario's properties can be confirmed on it.
+func runScenario(name string, cfgSeed uint64, ch func(int, []int) int, grace time.Duration) (out *scenOut) {
+	defer func() {
+		if r := recover(); r != nil {
+			removeHook()
+			what := fmt.Sprintf("panic while checking the run (replica replay / restore / read-back): %v @ %s", r, shortStack())
+			out = &scenOut{Viol: map[string][]string{}, Known: map[string][]string{}, Features: map[string]int{}, Desc: name + ": " + what}
+			if curSched != nil {
+				out.Trace, out.Choices = curSched.Trace, curSched.Choices
+			}
+			for _, p := range []string{"C02", "C06", "C08", "C09", "C10", "C11", "C12", "C15", "C18", "C19", "C03"} {
+				out.viol(p, "%s", what)
+			}
+		}
+	}()
+	return runScenario1(name, cfgSeed, ch, grace)
+}
+
+func runScenario1(name string, cfgSeed uint64, ch func(int, []int) int, grace time.Duration) *scenOut {
 	rng := NewRng(cfgSeed)
 	switch name {
 	case "rows":
@@ -96,6 +116,20 @@ func runScenario(name string, cfgSeed uint64, ch func(int, []int) int, grace tim
 			cfg.writers[i].rows = keep(cfg.writers[i].rows)
 			if len(cfg.writers[i].rows) == 0 {
 				cfg.writers[i].rows = []uint32{0}
+			}
+		}
+		// two blocks always, and writers that often span both (their per-block commits interleave with
+		// other writers' and with the snapshot's block reads)
+		has := false
+		for _, o := range cfg.rows {
+			has = has || o == 16384+3
+		}
+		if !has {
+			cfg.rows = append(cfg.rows, 16384+3)
+		}
+		for i := range cfg.writers {
+			if rng.Chance(45) {
+				cfg.writers[i].rows = append([]uint32(nil), cfg.rows...)
 			}
 		}
 		cfg.readers, cfg.ranger, cfg.marker = nil, false, false
